@@ -70,3 +70,8 @@ Definition chk_strip (cases : list (str * str)) : bool := forallb (fun p => str_
 (* an assignment obj.attr = v to an int attribute of an object currently holding `held` *)
 Definition chk_assign_int (mn mx : option Z) (held v code : Z) : bool :=
   code_of Z.eqb (attr_set_outcome (int_validate mn mx) held v) v =? code.
+
+(* type dispatch: the table interpreted from source vs the outcome of the real validate on the same representative *)
+Definition chk_type (c : convkind) (t : pytag) (expected : tyout) : bool := tyout_eqb (type_dispatch c t) expected.
+Definition chk_dec_init (p s : Z) (expected : result (Z * Z)) : bool :=
+  res_eqb (fun a b => (fst a =? fst b) && (snd a =? snd b)) (dec_init p s) expected.
